@@ -405,6 +405,12 @@ def expand(prog, f, depth=2, local_only=False, skip_names=()):
                 st.body = walk_block(st.body, owner, level, local_defs)  # closures see the same helpers
                 out.append(st)
                 continue
+            if isinstance(st, ast.For) and isinstance(st.iter, ast.Call) and level < depth and not st.orelse:
+                fused = _fuse_generator_loop(prog, owner, st, local_defs, counter, local_only, f, skip_names)
+                if fused is not None:
+                    body_, sub_owner_ = fused
+                    out.extend(walk_block(body_, sub_owner_, level + 1, local_defs))
+                    continue
             call, kind = None, None
             if isinstance(st, ast.Expr) and isinstance(st.value, ast.Call):
                 call, kind = st.value, "expr"
@@ -493,13 +499,94 @@ def _is_inliner_temp(name):
     return name.startswith("hoist__") or re.fullmatch(r".+__.+_\d+", name) is not None
 
 
+def _fuse_generator_loop(prog, owner, st, local_defs, counter, local_only, top, skip_names):
+    """`for v in gen(args): BODY`, gen a generator function of the repository  ->  gen's body with every `yield E` replaced by
+    `v = E; BODY` (what running the loop does, item by item).  Only when the loop body has no break/continue of its own and the
+    generator neither returns nor uses the value of a yield."""
+    r = resolve_callee(prog, owner, st.iter, local_defs)
+    if r is None:
+        return None
+    callee, skip = r
+    cnode = callee.node if isinstance(callee, FuncInfo) else callee
+    if cnode is top.node or cnode.name in skip_names or (local_only and isinstance(callee, FuncInfo) and callee.module is not top.module):
+        return None
+    own = [x for x in _walk_same_function(cnode)]
+    ys = [x for x in own if isinstance(x, (ast.Yield, ast.YieldFrom))]
+    if not ys or len(ys) > 3 or any(isinstance(x, ast.YieldFrom) or x.value is None for x in ys) or any(isinstance(x, ast.Return) for x in own):
+        return None
+
+    def own_jumps(stmts):
+        for s_ in stmts:
+            if isinstance(s_, (ast.Break, ast.Continue)):
+                return True
+            if isinstance(s_, (ast.For, ast.While, ast.FunctionDef, ast.AsyncFunctionDef, ast.ClassDef)):
+                continue
+            for fld in ("body", "orelse", "finalbody"):
+                b = getattr(s_, fld, None)
+                if isinstance(b, list) and b and isinstance(b[0], ast.stmt) and own_jumps(b):
+                    return True
+            if any(own_jumps(h.body) for h in getattr(s_, "handlers", []) or []):
+                return True
+        return False
+
+    if own_jumps(st.body):
+        return None
+    self_expr = copy.deepcopy(st.iter.func.value) if isinstance(st.iter.func, ast.Attribute) else None
+    body = _callee_body(prog, callee, skip, st.iter, counter, self_expr)
+    if body is None:
+        return None
+    from .desugar import _D
+
+    ok = [True]
+
+    def rep(stmts):
+        out = []
+        for s_ in stmts:
+            if isinstance(s_, ast.Expr) and isinstance(s_.value, ast.Yield):
+                a_ = _loc(ast.Assign(targets=[copy.deepcopy(st.target)], value=s_.value.value, type_comment=None), s_)
+                r_ = _D().visit_Assign(a_)
+                out.extend(r_ if isinstance(r_, list) else [r_])
+                out.extend(copy.deepcopy(st.body))
+                continue
+            if any(isinstance(x, ast.Yield) for x in ast.walk(s_)) and not any(
+                    isinstance(getattr(s_, fld, None), list) for fld in ("body", "orelse", "finalbody")):
+                ok[0] = False   # the value of a yield is used
+            for fld in ("body", "orelse", "finalbody"):
+                b = getattr(s_, fld, None)
+                if isinstance(b, list) and b and isinstance(b[0], ast.stmt):
+                    setattr(s_, fld, rep(b))
+            for h in getattr(s_, "handlers", []) or []:
+                h.body = rep(h.body)
+            if isinstance(s_, (ast.If, ast.While)) and any(isinstance(x, ast.Yield) for x in ast.walk(s_.test)):
+                ok[0] = False
+            out.append(s_)
+        return out
+
+    new = rep(body)
+    if not ok[0] or any(isinstance(x, ast.Yield) for s_ in new for x in ast.walk(s_)):
+        return None
+    sub_owner = as_receiver(callee, owner, st.iter) if isinstance(callee, FuncInfo) else owner
+    return _prune_const_ifs(new), sub_owner
+
+
+def _walk_same_function(fnode):
+    """nodes of a function body, nested definitions excluded"""
+    todo = list(fnode.body)
+    while todo:
+        n = todo.pop()
+        yield n
+        for c in ast.iter_child_nodes(n):
+            if not isinstance(c, (ast.FunctionDef, ast.AsyncFunctionDef, ast.Lambda, ast.ClassDef)):
+                todo.append(c)
+
+
 def _fold_record_constants(prog, module, root):
     """`K.f`, K a module constant built by a record constructor from literals (`_X_AXIS = _Axis(offset="x", ...)`), reads as the
     literal; `getattr(o, "a")` / `setattr(o, "a", v)` with the name now literal read as the attribute access they perform."""
     from . import records as R_
 
     if not any(isinstance(n, ast.Attribute) and isinstance(n.value, ast.Name) and n.value.id in module.assigns for n in ast.walk(root)):
-        return root
+        return _literal_attr_access(root)
     bound = {n.id for n in ast.walk(root) if isinstance(n, ast.Name) and isinstance(n.ctx, (ast.Store, ast.Del))}
     bound |= {a.arg for fn in ast.walk(root) if isinstance(fn, (ast.FunctionDef, ast.Lambda)) for a in fn.args.args + fn.args.kwonlyargs}
     changed = [False]
@@ -518,9 +605,10 @@ def _fold_record_constants(prog, module, root):
             return n
 
     root = F().visit(root)
-    if not changed[0]:
-        return root
+    return _literal_attr_access(root)
 
+
+def _literal_attr_access(root):
     def lit(e):
         return isinstance(e, ast.Constant) and isinstance(e.value, str) and e.value.isidentifier()
 
